@@ -19,6 +19,7 @@
 EXTENDS Naturals, Integers, Sequences, FiniteSets, Float64
 
 CONSTANT TolScale   \* "1" in every registered check (a knob for experiments only)
+CONSTANT TolExact   \* factor on the tolerances of exact identities and formulas ("300": see below)
 
 DirV == 1
 DirT == 2
@@ -74,12 +75,14 @@ ProdX(xs, b) == CASE Len(b) = 0 -> "1"
                   [] Len(b) = 3 -> FAbs(FMul(xs[b[1]], FMul(xs[b[2]], xs[b[3]])))
 
 --------------------------------------------------------------------------------
-\* tolerances (part of the specification; calibrated on the pinned tree, see DESIGN.md section 4)
+\* tolerances (part of the specification; calibrated on the pinned tree, see DESIGN.md section 4).  TolExact (identities and formulas only): 1 for the original zoo; 300 since the
+\* class-stratified sample of shipped records (strongly associating records at 0.4 T_c lose 8 digits in second temperature derivatives: the same
+\* quantity through two dual-number types differs by 6e-9).
 RtolDeriv == FMul("1e-6", TolScale)    \* analytic derivative vs 4th-order stencil, relative to the result
 AtolDerivNat == FMul("2e-7", TolScale) \* ... or this fraction of the natural magnitude of the stencil data / |x|
 NoiseFactor == "10"                    \* an iterative solver inside the model adds NoiseFactor * tol / h_rel to that
-RtolExact == FMul("1e-10", TolScale)   \* exact algebraic identities (Euler, Gibbs-Duhem, Total = IG + Res)
-RtolFormula == FMul("1e-9", TolScale)  \* textbook formulas over catalogue entries
+RtolExact == FMul("1e-10", FMul(TolScale, TolExact))   \* exact algebraic identities (Euler, Gibbs-Duhem, Total = IG + Res)
+RtolFormula == FMul("1e-9", FMul(TolScale, TolExact))  \* textbook formulas over catalogue entries
 RtolPath == FMul("1e-4", TolScale)     \* derivatives along constrained paths (states built by density iteration)
 Tiny == "1e-300"
 
